@@ -331,6 +331,7 @@ func init() {
 		match: func(o *Obligation) bool {
 			return o.Fn == "controller.Controller.Start" && strings.HasPrefix(o.Kind, "lockinv.status")
 		},
+		scripted: true,
 		pkg: "controller",
 		gen: func(o *Obligation, vals map[string]string) (string, bool) {
 			rf, ok := intVal(vals, "c.ReplicationFactor")
@@ -394,6 +395,7 @@ func init() {
 		match: func(o *Obligation) bool {
 			return o.Fn == "controller.Controller.Snapshot" && strings.HasPrefix(o.Kind, "lockinv.status")
 		},
+		scripted: true,
 		pkg: "controller",
 		gen: func(o *Obligation, vals map[string]string) (string, bool) {
 			body := `
@@ -507,6 +509,160 @@ func TestZZReplay(t *testing.T) {
 	"net/http/httptest"
 	"strings"`, 1)
 			return src + body, true
+		},
+	})
+}
+
+const ctlHTTPImports = `import (
+	"fmt"
+	"net/http"
+	"net/http/httptest"
+	"strings"`
+
+func ctlMockHTTP() string {
+	return strings.Replace(ctlMock, "import (\n\t\"fmt\"", ctlHTTPImports, 1)
+}
+
+func init() {
+	// Revert: status part of the lock invariant after replicas failed to revert (scripted scenario: RF=3, two of three fail)
+	replayTemplates = append(replayTemplates, replayTemplate{
+		match: func(o *Obligation) bool {
+			return o.Fn == "controller.Controller.Revert" && strings.HasPrefix(o.Kind, "lockinv.status")
+		},
+		scripted: true,
+		pkg: "controller",
+		gen: func(o *Obligation, vals map[string]string) (string, bool) {
+			body := `
+func zzRevertServer(fail bool) *httptest.Server {
+	var srv *httptest.Server
+	srv = httptest.NewServer(http.HandlerFunc(func(w http.ResponseWriter, r *http.Request) {
+		if r.Method == "POST" {
+			if fail {
+				http.Error(w, "injected revert failure", 500)
+			}
+			return
+		}
+		w.Header().Set("Content-Type", "application/json")
+		w.Write([]byte("{\"chain\": [\"volume-head-001.img\", \"volume-snap-s0.img\"], \"actions\": {\"revert\": \"" + srv.URL + "/v1/replicas/1?action=revert\"}}"))
+	}))
+	return srv
+}
+
+func TestZZReplay(t *testing.T) {
+	c := NewController(WithRF(3), WithFrontend(zzFrontend{}, ""))
+	for i := 0; i < 3; i++ {
+		srv := zzRevertServer(i > 0)
+		defer srv.Close()
+		addr := "tcp://" + strings.TrimPrefix(srv.URL, "http://")
+		c.replicas = append(c.replicas, types.Replica{Address: addr, Mode: types.WO})
+		c.backend.AddBackend(addr, &zzBackend{name: addr})
+		c.setReplicaModeNoLock(addr, types.RW)
+	}
+	c.size = 1 << 30
+	c.UpdateVolStatus()
+	err := c.Revert("s0")
+	rw := 0
+	for _, r := range c.replicas {
+		if r.Mode == types.RW {
+			rw++
+		}
+	}
+	wantRO := rw < (c.ReplicationFactor+c.quorumReplicaCount)/2+1
+	t.Logf("Revert err=%v; replicas=%+v RO=%v RWcount=%d (actual RW entries %d, read-only should be %v)", err, c.replicas, c.ReadOnly, c.RWReplicaCount, rw, wantRO)
+	if c.RWReplicaCount != rw || c.ReadOnly != wantRO {
+		n, werr := c.WriteAt(make([]byte, 4096), 0)
+		t.Fatalf("REPLAY-REPRODUCED: Revert released the lock with the status stale; a write issued right after returned n=%d err=%v with %d of %d replicas RW", n, werr, rw, c.ReplicationFactor)
+	}
+	t.Log("REPLAY-NOT-REPRODUCED")
+}
+`
+			return ctlMockHTTP() + body, true
+		},
+	})
+	// PrepareRebuildReplica: chain[0] / rwChain[1:] without length checks (scripted: replicas report an empty chain)
+	replayTemplates = append(replayTemplates, replayTemplate{
+		match: func(o *Obligation) bool {
+			return o.Fn == "controller.Controller.PrepareRebuildReplica" && (o.Kind == "index" || o.Kind == "slice")
+		},
+		scripted: true,
+		pkg: "controller",
+		gen: func(o *Obligation, vals map[string]string) (string, bool) {
+			body := `
+func TestZZReplay(t *testing.T) {
+	srv := httptest.NewServer(http.HandlerFunc(func(w http.ResponseWriter, r *http.Request) {
+		w.Header().Set("Content-Type", "application/json")
+		w.Write([]byte("{\"chain\": []}")) // e.g. a replica that is not open reports no chain
+	}))
+	defer srv.Close()
+	c := NewController(WithRF(2), WithFrontend(zzFrontend{}, ""))
+	rwAddr := "tcp://" + strings.TrimPrefix(srv.URL, "http://")
+	woAddr := strings.Replace(rwAddr, "127.0.0.1", "localhost", 1)
+	for i, addr := range []string{rwAddr, woAddr} {
+		c.replicas = append(c.replicas, types.Replica{Address: addr, Mode: types.WO})
+		c.backend.AddBackend(addr, &zzBackend{name: addr})
+		if i == 0 {
+			c.setReplicaModeNoLock(addr, types.RW)
+		}
+	}
+	c.UpdateVolStatus()
+	defer func() {
+		if r := recover(); r != nil {
+			t.Fatalf("REPLAY-REPRODUCED: PrepareRebuildReplica panicked in the request handler path: %v", r)
+		}
+	}()
+	_, err := c.PrepareRebuildReplica(woAddr)
+	t.Logf("PrepareRebuildReplica err=%v", err)
+	t.Log("REPLAY-NOT-REPRODUCED")
+}
+`
+			return ctlMockHTTP() + body, true
+		},
+	})
+}
+
+func init() {
+	// addQuorumReplica: status part of the lock invariant at the error exits after the quorum replica was appended
+	replayTemplates = append(replayTemplates, replayTemplate{
+		match: func(o *Obligation) bool {
+			return o.Fn == "controller.Controller.addQuorumReplica" && strings.HasPrefix(o.Kind, "lockinv.status")
+		},
+		scripted: true,
+		pkg: "controller",
+		gen: func(o *Obligation, vals map[string]string) (string, bool) {
+			body := `
+type zzQBackend struct{ zzBackend }
+
+func (b *zzQBackend) SetRebuilding(bool) error { return fmt.Errorf("injected SetRebuilding failure") }
+
+type zzQFactory struct{}
+
+func (zzQFactory) Create(address string) (types.Backend, error) {
+	return &zzQBackend{zzBackend{name: address, monitor: make(types.MonitorChannel, 2)}}, nil
+}
+func (zzQFactory) SignalToAdd(a, action string) error { return nil }
+func (zzQFactory) VerifyReplicaAlive(string) bool    { return true }
+
+func TestZZReplay(t *testing.T) {
+	c, _ := zzController(1, []types.Mode{types.RW}, 1<<30)
+	c.factory = zzQFactory{}
+	before := fmt.Sprintf("RO=%v RWcount=%d", c.ReadOnly, c.RWReplicaCount)
+	err := c.AddQuorumReplica("tcp://10.0.9.9:9502")
+	rw := 0
+	for _, r := range append(append([]types.Replica{}, c.replicas...), c.quorumReplicas...) {
+		if r.Mode == types.RW {
+			rw++
+		}
+	}
+	wantRO := rw < (c.ReplicationFactor+c.quorumReplicaCount)/2+1
+	t.Logf("before: %s; AddQuorumReplica err=%v; quorumReplicas=%+v quorumReplicaCount=%d RO=%v RWcount=%d (RW entries %d, read-only should be %v)",
+		before, err, c.quorumReplicas, c.quorumReplicaCount, c.ReadOnly, c.RWReplicaCount, rw, wantRO)
+	if err != nil && (c.RWReplicaCount != rw || c.ReadOnly != wantRO) {
+		t.Fatalf("REPLAY-REPRODUCED: AddQuorumReplica failed after attaching the quorum replica and released the lock with the status stale")
+	}
+	t.Log("REPLAY-NOT-REPRODUCED")
+}
+`
+			return ctlMock + body, true
 		},
 	})
 }
